@@ -229,6 +229,73 @@ func main() {
 		}
 	}
 
+	// ---- what a damaged frame leaves behind: one frame that is no packet (too short for a key id, for a plain-text
+	// header, for a message key, one or two cipher blocks of garbage under the right / another / the zero key id),
+	// then a conformant packet - on one transport object, and through the two deserialisers directly. What happens
+	// to the damaged frame itself is C04's subject; the conformant packet behind it must open to the sealed fields.
+	{
+		nd := 0
+		for ki, key := range authKeys {
+			var damaged [][]byte
+			for _, kid := range [][]byte{mtp1.KeyID(key), {1, 2, 3, 4, 5, 6, 7, 8}, make([]byte, 8)} {
+				for _, n := range []int{0, 1, 5, 7, 8, 12, 16, 19, 20, 23, 24, 28, 39, 40, 41, 56, 72} {
+					d := pat(n, func(i int) byte { return byte(0x51 + 11*i) })
+					copy(d, kid)
+					damaged = append(damaged, d)
+				}
+			}
+			body := pat(36, func(i int) byte { return byte(i + 3) })
+			m := mtp1.Msg{Salt: 77, Session: longs[4], MsgID: serverID[0], SeqNo: 5, Body: body}
+			pkt := mtp1.Seal(key, m, make([]byte, mtp1.PadLen(len(body))), 8)
+			fr4 := func(b []byte) []byte { return append(binary.LittleEndian.AppendUint32(nil, uint32(len(b))), b...) }
+			for di, d := range damaged {
+				nd++
+				id := fmt.Sprintf("after-a-damaged-frame key%d frame#%d(len=%d,keyid=%x)", ki, di, len(d), d[:min(8, len(d))])
+				rep := map[string]any{"dir": "after-a-damaged-frame", "key": ki, "frame_hex": fmt.Sprintf("%x", d)}
+				// through the transport
+				inf := &informator{key: key, salt: longs[0], session: longs[4], seq: 6}
+				conn := &memConn{r: bytes.NewReader(append(fr4(d), fr4(pkt)...))}
+				var rd messages.Common
+				var err error
+				p, pm, fr := vr.Try(func() {
+					t, terr := transport.VerifNewTransport(inf, conn, mode.Intermediate)
+					if terr != nil {
+						err = terr
+						return
+					}
+					vr.Try(func() { t.ReadMsg() }) // the damaged frame: refused one way or another
+					rd, err = t.ReadMsg()
+				})
+				run.Eval(id+" transport", true)
+				switch {
+				case p:
+					run.Violation("after-a-damaged-frame|transport|panic|"+vr.MsgClass(pm)+"|"+fr, id+": panic "+pm, rep)
+				case err != nil:
+					run.Violation("after-a-damaged-frame|transport|conformant-packet-refused|"+vr.MsgClass(err.Error()), fmt.Sprintf("%s: the conformant packet behind the damaged frame is refused: %v", id, err), rep)
+				case rd.GetMsgID() != int(m.MsgID) || rd.GetSeqNo() != 5 || !bytes.Equal(rd.GetMsg(), body):
+					run.Violation("after-a-damaged-frame|transport|read-differs", id, rep)
+				}
+				// through the deserialisers
+				vr.Try(func() { messages.DeserializeEncrypted(append([]byte{}, d...), key) })
+				vr.Try(func() { messages.DeserializeUnencrypted(append([]byte{}, d...)) })
+				var got *messages.Encrypted
+				p, pm, fr = vr.Try(func() { got, err = messages.DeserializeEncrypted(append([]byte{}, pkt...), key) })
+				run.Eval(id+" deserialise", true)
+				switch {
+				case p:
+					run.Violation("after-a-damaged-frame|deserialise|panic|"+vr.MsgClass(pm)+"|"+fr, id+": panic "+pm, rep)
+				case err != nil || got == nil:
+					run.Violation("after-a-damaged-frame|deserialise|conformant-packet-refused", fmt.Sprintf("%s: the conformant packet decoded after the damaged frame is refused: %v", id, err), rep)
+				default:
+					if g := (mtp1.Msg{Salt: got.Salt, Session: got.SessionID, MsgID: got.MsgID, SeqNo: got.SeqNo, Body: got.Msg}); !g.Equal(m) {
+						run.Violation("after-a-damaged-frame|deserialise|fields-differ|"+diff(g, m), id, rep)
+					}
+				}
+			}
+		}
+		run.Set("damaged_frame_then_conformant_packet_histories", nd)
+	}
+
 	// ---- history on ONE transport object: the session parameters change between writes (salt rotation, new
 	// session id, seq_no advancing, even a new key); every packet must carry the values current at its write
 	for _, hist := range [][]informator{
